@@ -170,7 +170,7 @@ def same_agentstate(a, b):
     return a == b
 
 
-def prop_pomdp_rollout(case, ctx):
+def prop_pomdp_rollout(case, ctx, pfx="C14.pomdp"):
     from fractions import Fraction as F
     spec = case["pomdp"]
     pomdp, view = build_pomdp(spec)
@@ -181,43 +181,48 @@ def prop_pomdp_rollout(case, ctx):
     start = case["start"]
     if start is not None and S[start] not in sl:
         start = None
+    if start is not None and case["policy"]["kind"] in ("alpha", "qmdp") and not ref.p0[start] > 0:
+        # a belief-tracking policy starts from the prior; a true start state the prior excludes makes the
+        # observations impossible under the belief (empty posterior) - outside the domain of a roll-out
+        start = None
+        ctx.event("start_outside_prior_support_dropped")
     rng = OwnedRandom(case["stream"], tail_seed=case["seed"])
     kw = {} if start is None else {"initial_state": S[start]}
-    traj = ctx.call("C14.pomdp.run_on_raises", lambda: policy.run_on(pomdp, max_steps=case["max_steps"], rng=rng, **kw))
-    ctx.check(len(traj) >= 1, "C14.pomdp.empty_trajectory")
+    traj = ctx.call(pfx + ".run_on_raises", lambda: policy.run_on(pomdp, max_steps=case["max_steps"], rng=rng, **kw))
+    ctx.check(len(traj) >= 1, pfx + ".empty_trajectory")
     body, last = traj[:-1], traj[-1]
-    ctx.check(last.action is None and last.nextstate is None and last.observation is None, "C14.pomdp.final_step_is_bare",
+    ctx.check(last.action is None and last.nextstate is None and last.observation is None, pfx + ".final_step_is_bare",
               lambda: f"{last}")
     first = traj[0].state
     if start is not None:
-        ctx.check(first == S[start], "C14.pomdp.starts_at_given_state")
+        ctx.check(first == S[start], pfx + ".starts_at_given_state")
     else:
-        ctx.check(ref.p0[view.sidx[first]] > 0, "C14.pomdp.starts_in_initial_support", lambda: f"{first}")
-    ctx.check(same_agentstate(traj[0].agentstate, policy.initial_agentstate()), "C14.pomdp.first_agentstate_is_initial")
+        ctx.check(ref.p0[view.sidx[first]] > 0, pfx + ".starts_in_initial_support", lambda: f"{first}")
+    ctx.check(same_agentstate(traj[0].agentstate, policy.initial_agentstate()), pfx + ".first_agentstate_is_initial")
     stoch = False
     for t, st_ in enumerate(body):
         i, k = view.sidx[st_.state], view.sidx[st_.nextstate]
         j = view.aidx.get(st_.action)
-        ctx.check(not spec["absorbing"][i], "C14.pomdp.step_from_absorbing_state", lambda: f"step {t}")
+        ctx.check(not spec["absorbing"][i], pfx + ".step_from_absorbing_state", lambda: f"step {t}")
         pa = policy.action_dist(st_.agentstate).prob(st_.action) if j is not None else 0
-        ctx.check(j is not None and pa > 0, "C14.pomdp.action_has_zero_policy_probability", lambda: f"step {t}: {st_.action}")
+        ctx.check(j is not None and pa > 0, pfx + ".action_has_zero_policy_probability", lambda: f"step {t}: {st_.action}")
         if j is not None:
-            ctx.check(ref.W[i, j, k] > 0, "C14.pomdp.successor_has_zero_probability", lambda: f"step {t}")
-            ctx.check(st_.reward == ref.R[i, j, k], "C14.pomdp.reward_is_model_reward", lambda: f"step {t}")
+            ctx.check(ref.W[i, j, k] > 0, pfx + ".successor_has_zero_probability", lambda: f"step {t}")
+            ctx.check(st_.reward == ref.R[i, j, k], pfx + ".reward_is_model_reward", lambda: f"step {t}")
             ow = dict((o, w) for o, w in spec["obs"][j][k])
-            ctx.check(ow.get(view.oidx.get(st_.observation), 0) > 0, "C14.pomdp.observation_has_zero_probability",
+            ctx.check(ow.get(view.oidx.get(st_.observation), 0) > 0, pfx + ".observation_has_zero_probability",
                       lambda: f"step {t}: obs {st_.observation} after a={j}, ns={k}")
             want = policy.next_agentstate(st_.agentstate, st_.action, st_.observation)
-            ctx.check(same_agentstate(st_.nextagentstate, want), "C14.pomdp.nextagentstate_is_policy_update", lambda: f"step {t}")
+            ctx.check(same_agentstate(st_.nextagentstate, want), pfx + ".nextagentstate_is_policy_update", lambda: f"step {t}")
             if (ref.W[i, j] > 0).sum() > 1:
                 stoch = True
         nxt = traj[t + 1]
-        ctx.check(nxt.state == st_.nextstate, "C14.pomdp.steps_chain", lambda: f"step {t}")
-        ctx.check(same_agentstate(nxt.agentstate, st_.nextagentstate), "C14.pomdp.agentstates_chain", lambda: f"step {t}")
+        ctx.check(nxt.state == st_.nextstate, pfx + ".steps_chain", lambda: f"step {t}")
+        ctx.check(same_agentstate(nxt.agentstate, st_.nextagentstate), pfx + ".agentstates_chain", lambda: f"step {t}")
     nsteps = len(body)
     end_abs = bool(spec["absorbing"][view.sidx[last.state]])
-    ctx.check(nsteps <= case["max_steps"], "C14.pomdp.exceeds_step_cap")
-    ctx.check(nsteps == case["max_steps"] or end_abs, "C14.pomdp.stops_early_without_absorbing",
+    ctx.check(nsteps <= case["max_steps"], pfx + ".exceeds_step_cap")
+    ctx.check(nsteps == case["max_steps"] or end_abs, pfx + ".stops_early_without_absorbing",
               lambda: f"{nsteps} steps, cap {case['max_steps']}")
     ctx.event("kind=" + case["policy"]["kind"])
     ctx.nontrivial(nsteps >= 2 and (nsteps == case["max_steps"] or (end_abs and stoch)))
